@@ -114,6 +114,18 @@ def run_check(prop, tier, seed):
             proof['errors'] += pr['errors']
             proof['files'] = sorted(set(proof['files']) | set(pr.get('files', [])))
             proof['checker_cmd'] = (proof['checker_cmd'] + ' ; ' if proof['checker_cmd'] else '') + pr.get('checker_cmd', '')
+    # thorough tier: independent re-check of the compiled property files with coqchk
+    chk = {}
+    if ctx.thorough and pfiles and not proof['errors']:
+        for pf in pfiles:
+            try:
+                c = coqrun.coqchk(pf)
+            except Exception as e:
+                c = {'ok': False, 'rc': None, 'axioms': [], 'unsafe': [], 'summary': 'coqchk crashed: %r' % (e,)}
+            chk[pf] = {'ok': c['ok'], 'axioms': c['axioms'], 'unsafe': c['unsafe']}
+            if not c['ok']:
+                proof['errors'].append({'file': pf, 'line': None, 'statement': 'coqchk',
+                                        'message': 'coqchk rejected the compiled development: ' + c['summary'][-800:]})
     for e in proof['errors']:
         broken.append({'kind': 'broken_theorem', 'what': '%s (%s:%s)' % (e.get('statement'), e.get('file'), e.get('line')),
                        'message': e['message']})
@@ -188,6 +200,7 @@ def run_check(prop, tier, seed):
         'trusted_base': KERNEL_TB + list(getattr(mod, 'TRUSTED_BASE', [])),
         'theorems': proof['theorems'],
         'coq_files': proof.get('files', []),
+        'coqchk': chk,
         'evaluations': ev_n,
         'distinct_nontrivial': int(tie.get('distinct_nontrivial', 0)) + int(orc.get('distinct_nontrivial', 0)),
         'rule': tie.get('rule', '') + (' | oracle: ' + orc.get('rule', '') if orc.get('rule') else ''),
